@@ -367,9 +367,13 @@ def save_params(args):
             vals[1] = os.path.abspath(vals[1])
             args.read_group = ":".join(vals)
 
-    pickler = pickle.Pickler(open(args.param_file, "wb"),  -1)
-    pickler.dump(args)
-    pass
+    # a resumed run saves its parameters again: write them under a temporary name first,
+    # an interrupted run must not leave an empty parameter file behind
+    tmp_param_file = args.param_file + ".tmp"
+    with open(tmp_param_file, "wb") as param_handle:
+        pickler = pickle.Pickler(param_handle,  -1)
+        pickler.dump(args)
+    os.replace(tmp_param_file, args.param_file)
 
 
 # Check user's params
